@@ -33,39 +33,38 @@ PURE = ("Theorems about the executable model of the package; tied to /repo by di
 PART = " What is proved so far and what is only tested is listed per property in DESIGN.md section 9."
 
 CHECKS = [
-    chk("C01", ENGINE + "Proved: every payment keeps the paying seat's chip identity and moves nobody else's chips." + PART,
+    chk("C01", ENGINE + "Proved in full on the model: the chip identity and non-negativity in every reachable state, published pots add up, and the closing clauses (zero-sum result, final = bankroll + change >= 0, nobody loses more than he put in) for every reachable state that carries a result." + PART,
         BASE_NOTE + "Amounts in Z (int64 = Z while the sum of bankrolls stays below 2^61).",
         "Coq proof over a Gallina model + differential correspondence with the Go code", "DESIGN.md §4 C01, §9"),
-    chk("C02", PURE + "Settlement and pot models; the engine's showdowns are compared as well." + PART,
+    chk("C02", PURE + "Settlement and pot models; the engine's showdowns are compared as well. Proved: the level-by-level rule, zero-sum, bounds, folded players win nothing, uncalled excess returns, tied winners of a pot differ by at most one chip; the engine records exactly this settlement." + PART,
         BASE_NOTE + "Scores are positive exactly for the non-folded players.",
         "Coq proof over a Gallina model + differential correspondence with the Go code", "DESIGN.md §4 C02, §9"),
     chk("C03", PURE + "The evaluator model runs over constant tables regenerated from the Go source on every run." + PART,
         BASE_NOTE + "Hands are five distinct cards of the 52-card deck.",
         "Coq proof (reflection over the finite set of hand classes) + differential correspondence", "DESIGN.md §4 C03, §9"),
-    chk("C04", ENGINE + "Proved for every state: a table operation in the wrong phase and any action the addressed seat was "
-        "not offered are refused with the error and leave the state unchanged." + PART, BASE_NOTE,
+    chk("C04", ENGINE + "Proved: wrong-phase operations and unoffered actions are refused without change (every state); in every reachable "
+        "state exactly one seat is offered actions, the turn passes clockwise, the first seat to act is left of the big blind / of the dealer, and any refused operation leaves the state unchanged." + PART, BASE_NOTE,
         "Coq proof over a Gallina model + differential correspondence with the Go code", "DESIGN.md §4 C04, §9"),
-    chk("C05", ENGINE + PART, BASE_NOTE,
+    chk("C05", ENGINE + "Proved: the last-man and no-stacks clauses and that the seat asked to act has not yet acted; the lap invariant (never closed early, closed within a lap) is decided by the harness's independent round monitor and the correspondence only." + PART, BASE_NOTE,
         "Coq proof over a Gallina model + differential correspondence with the Go code", "DESIGN.md §4 C05, §9"),
-    chk("C06", ENGINE + "Proved: a closed hand refuses every operation without change." + PART, BASE_NOTE,
+    chk("C06", ENGINE + "Proved in full on the model: start conditions, the awaited step always succeeds, streets in order, every accepted step decreases a measure (bounded hands whatever the players choose), the hand finishes with a result and then accepts nothing." + PART, BASE_NOTE,
         "Coq proof over a Gallina model + differential correspondence with the Go code", "DESIGN.md §4 C06, §9"),
     chk("C07", ENGINE + "Every operation is also run through table.NativeBackend from the serialised state and the two "
         "states are compared as JSON; a reflect-based schema pin guards new fields." + PART, BASE_NOTE + "encoding/json is modelled, not verified.",
         "Coq proof over a Gallina model + differential correspondence (in-memory vs JSON-rebuilt vs model)", "DESIGN.md §4 C07, §9"),
     chk("C08", SEAT + "Reported against known finding F11." + PART, BASE_NOTE,
         "Coq proof over a Gallina model + complete-graph correspondence for small tables", "DESIGN.md §4 C08, §9"),
-    chk("C09", REG + "Proved: calls naming an unknown table and registrations after the deadline are refused without change." + PART,
+    chk("C09", REG + "Proved for every history of the regulator with instruction-following tables (any map iteration order): every living player is in exactly one place, the player total, table count and per-table counts are the real numbers; unknown tables and late registrations are refused without change." + PART,
         BASE_NOTE, "Coq proof over a Gallina model + differential correspondence with the Go code", "DESIGN.md §4 C09, §9"),
-    chk("C10", PURE + "Proved: Gosper enumeration is complete for up to 9 cards; the reported hand is the evaluation of a "
-        "candidate that no candidate out-scores." + PART, BASE_NOTE,
+    chk("C10", PURE + "Proved: Gosper enumeration is complete for up to 9 cards; in every reachable engine state after the deal the stored hand of every seat is one evaluation of an admissible selection that no admissible selection out-scores, and it is the strength the showdown compares." + PART, BASE_NOTE,
         "Coq proof over a Gallina model + differential correspondence with the Go code", "DESIGN.md §4 C10, §9"),
-    chk("C11", ENGINE + "Proved: the offer table, clause by clause, for every state." + PART, BASE_NOTE,
+    chk("C11", ENGINE + "Proved: the offer table, clause by clause, the offer held in every reachable state, and the exact chip effects of fold, check, call, all-in and bet." + PART, BASE_NOTE,
         "Coq proof over a Gallina model + differential correspondence with the Go code", "DESIGN.md §4 C11, §9"),
-    chk("C12", ENGINE + "Proved: raises below the wager to match (or to 0) and non-positive bets are refused without change." + PART,
+    chk("C12", ENGINE + "Proved: no amount can corrupt chips (every reachable state), a legal no-limit raise is carried out exactly, an undersized one is the all-in action, raises below the wager to match and non-positive bets are refused, the wager to match never goes down by an action." + PART,
         BASE_NOTE, "Coq proof over a Gallina model + differential correspondence with the Go code", "DESIGN.md §4 C12, §9"),
-    chk("C13", ENGINE + "Reported against known finding F10 (blinds skipped when dealer=0, sb=0, bb>0)." + PART, BASE_NOTE,
+    chk("C13", ENGINE + "Reported against known finding F10 (blinds skipped when dealer=0, sb=0, bb>0). Proved: who posts what after PayAnte / PayBlinds (capped at the stack), the resulting wager to match and minimum raise, and that antes and blinds are requested on a clean table in every reachable state." + PART, BASE_NOTE,
         "Coq proof over a Gallina model + differential correspondence with the Go code", "DESIGN.md §4 C13, §9"),
-    chk("C14", ENGINE + "Proved: shuffling (any sequence of swaps) only reorders." + PART, BASE_NOTE + "math/rand is modelled as an arbitrary swap sequence.",
+    chk("C14", ENGINE + "Proved in full on the model: the dealt cards are the consumed top of the deck in every reachable state, counts by street, the deck never changes and always suffices; shuffling (any sequence of swaps) only reorders." + PART, BASE_NOTE + "math/rand is modelled as an arbitrary swap sequence.",
         "Coq proof over a Gallina model + differential correspondence with the Go code", "DESIGN.md §4 C14, §9"),
     chk("C15", ENGINE + "Proved in full for every state and every viewer: no deck, no burned cards, hidden seats show neither "
         "hole cards nor evaluation, everything else is unchanged." + PART, BASE_NOTE + "The schema pin guards fields added later.",
@@ -77,16 +76,16 @@ CHECKS = [
         "on the implementation's output and supplies concrete replays." + PART,
         BASE_NOTE + "Eligible players of a pot are read as its non-folded entries (folded players are put back for display).",
         "Coq proof over a Gallina model + differential correspondence with the Go code", "DESIGN.md §4 C16, §9"),
-    chk("C17", SEAT + PART, BASE_NOTE,
+    chk("C17", SEAT + "Proved for every history: the button moves to the first playable seat after it, or Next is refused when fewer than two seats can play." + PART, BASE_NOTE,
         "Coq proof over a Gallina model + complete-graph correspondence for small tables", "DESIGN.md §4 C17, §9"),
     chk("C18", SEAT + "Proved for every history: seated players = successful joins - successful leaves; join/leave refusals and "
         "effects. Partial on the schedule quantifier: each method is taken as atomic under sm.mu (supported by a goroutine "
         "stress run, not proved)." + PART, BASE_NOTE + "sync.RWMutex atomicity is modelled, not verified.",
         "Coq proof over a Gallina model + complete-graph correspondence + goroutine stress", "DESIGN.md §4 C18, §9"),
-    chk("C19", REG + "Reported against known findings F12a/F12b (over-capacity hand-outs). Proved: nothing is handed out while "
-        "pending; SyncState makes no callback." + PART, BASE_NOTE,
+    chk("C19", REG + "Reported against known finding F12a (over-capacity table requests). Proved: nothing is handed out while "
+        "pending, no table below the minimum, every initial table gets the minimum; the capacity clause itself is decided by the oracle." + PART, BASE_NOTE,
         "Coq proof over a Gallina model + differential correspondence with the Go code", "DESIGN.md §4 C19, §9"),
-    chk("C20", REG + "Proved: a table that is told to break hands back its whole player count. The settling bound is tested "
+    chk("C20", REG + "Proved: a table that is told to break releases everybody it has, and handing players back places each of them in the queue or at a table. The settling bound is tested "
         "(sweeps until quiet within 12), not proved." + PART, BASE_NOTE,
         "Coq proof over a Gallina model (safety half) + differential correspondence; liveness tested", "DESIGN.md §4 C20, §9"),
 ]
